@@ -25,7 +25,7 @@ import (
 )
 
 func main() {
-	hx.Main(map[string]func(*hx.Ctx){"c08": runC08, "c13": runC13, "c14": runC14, "c15": runC15})
+	hx.Main(map[string]func(*hx.Ctx){"c08": runC08, "c12": runC12, "c13": runC13, "c14": runC14, "c15": runC15, "c16": runC16})
 }
 
 type sys struct {
@@ -316,12 +316,15 @@ func runC08(c *hx.Ctx) {
 		o.syslog(n, s)
 		c.Stat("scenarios", 1)
 	}
+	dyingWindow(o, c)
+	coSubscriber(o, c)
 }
 
 // ------------------------------------------------------------------- C15
 
 func runC15(c *hx.Ctx) {
 	o := &out{c: c}
+	defer backPressure(o, c, false)
 	type cfg struct {
 		pubs, subs, window, count int
 		cut                       bool
@@ -982,6 +985,13 @@ func connectBytes(id string) []byte {
 	return enc(c)
 }
 
+func connectBytesPersistent(id string) []byte {
+	c := packet.NewConnect()
+	c.ClientID = id
+	c.CleanSession = false
+	return enc(c)
+}
+
 func hostiles(c *hx.Ctx) []hostile {
 	big := strings.Repeat("x", 65535)
 	var hs []hostile
@@ -1022,6 +1032,24 @@ func hostiles(c *hx.Ctx) []hostile {
 		rawSend(port, connectBytes("h3"), rawPublish(big[:65534], []byte("x")))
 		// a will with empty topic
 		rawSend(port, []byte{0x10, 0x13, 0x00, 0x04, 'M', 'Q', 'T', 'T', 0x04, 0x06, 0x00, 0x00, 0x00, 0x01, 'w', 0x00, 0x00, 0x00, 0x01, 'x'})
+	})
+	add("invalid-filters", func(port string, c *hx.Ctx) {
+		// filters the specification forbids ('#' not last, wildcards sharing a level): the broker does not validate them,
+		// so they end up in the subscription tree; publishes that walk those nodes must not take the broker down
+		filters := []string{"a/#/b", "#/x", "a+/b", "+a/#", "a/#b", "/#/", "a/+/#/+", "#/#", "a/b#", "+/#/+"}
+		topics := []string{"a/x", "a/x/b", "a", "x", "a+/b", "/", "a/b", "a/b/c/d", "//", "a/#/b"}
+		for i, f := range filters {
+			chunks := [][]byte{connectBytes(fmt.Sprintf("h5-%d", i)), enc(&packet.Subscribe{ID: 1, Subscriptions: []packet.Subscription{{Topic: f, QOS: packet.QOS(i % 3)}}})}
+			for j, t := range topics {
+				chunks = append(chunks, enc(&packet.Publish{ID: packet.ID(10 + j), Message: packet.Message{Topic: t, Payload: []byte("w"), QOS: packet.QOS(j % 2)}}))
+			}
+			rawSend(port, chunks...)
+		}
+		// a persistent session keeps such a subscription beyond its connection; a will walks it too
+		rawSend(port, connectBytesPersistent("h5-p"), enc(&packet.Subscribe{ID: 1, Subscriptions: []packet.Subscription{{Topic: "a/#/b", QOS: 1}, {Topic: "w/#/x", QOS: 1}}}))
+		for _, t := range topics {
+			rawSend(port, connectBytes("h5-q"), enc(&packet.Publish{ID: 3, Message: packet.Message{Topic: t, Payload: []byte("w"), QOS: 1}}))
+		}
 	})
 	add("out-of-protocol", func(port string, c *hx.Ctx) {
 		pk := []packet.Generic{packet.NewConnack(), &packet.Suback{ID: 1, ReturnCodes: []packet.QOS{0}}, &packet.Unsuback{ID: 1}, &packet.Pingresp{},
@@ -1213,6 +1241,7 @@ func runC14(c *hx.Ctx) {
 			c.Stat("scenarios", 1)
 		}
 	}
+	closeThenConnect(o, c)
 	// no goroutine is left blocked once everything is shut down
 	leaked := 0
 	for i := 0; i < 100; i++ {
